@@ -13,19 +13,7 @@
 (* The universe tables are printed once (TABLE lines); REPLAY lines carry  *)
 (* indices into them.                                                      *)
 (***************************************************************************)
-EXTENDS GuardEval, Json, IOUtils
-
-\* ---- leaves -------------------------------------------------------------
-I(n) == [t |-> "int", v |-> n]
-F(m) == [t |-> "flt", v |-> m]
-S(cp) == [t |-> "str", v |-> cp]
-B(b) == [t |-> "bool", v |-> b]
-N == [t |-> "null"]
-L(xs) == [t |-> "list", v |-> xs]
-M(ks, vs) == [t |-> "map", k |-> ks, v |-> vs]
-RE(s, e, cp) == [t |-> "re", s |-> s, e |-> e, v |-> cp]
-RI(lo, hi, inc) == [t |-> "rint", lo |-> lo, hi |-> hi, inc |-> inc]
-RF(lo, hi, inc) == [t |-> "rflt", lo |-> lo, hi |-> hi, inc |-> inc]
+EXTENDS MC_Clause
 
 ka == <<97>>   kb == <<98>>   kc == <<99>>   kz == <<122>>
 sx == <<120>>  sy == <<121>>  sxy == <<120, 121>>
@@ -43,27 +31,15 @@ AVals == Leaves \o
     M(<<>>, <<>>), M(<<kb>>, <<I(1)>>), M(<<kb, kc>>, <<I(2), S(sx)>>),
     M(<<kb>>, <<L(<<I(1), I(2)>>)>>), M(<<kb>>, <<M(<<kc>>, <<I(1)>>)>>)>>
 
-Docs == [i \in 1 .. Len(AVals) |-> M(<<ka>>, <<AVals[i]>>)] \o
+E1Docs == [i \in 1 .. Len(AVals) |-> M(<<ka>>, <<AVals[i]>>)] \o
         <<M(<<>>, <<>>), M(<<kb>>, <<I(1)>>), M(<<ka, kb>>, <<I(1), I(1)>>),
           M(<<ka, kb>>, <<L(<<I(1), I(2)>>), L(<<I(2), I(1)>>)>>)>>
-
-\* ---- query shapes -------------------------------------------------------
-K(k) == [p |-> "key", k |-> k]
-All == [p |-> "all"]
-Idx == [p |-> "idx"]
-At(i) == [p |-> "at", i |-> i]
-This == [p |-> "this"]
-Gac(q, all, neg, op, on, rhs) ==
-  [c |-> "gac", q |-> q, all |-> all, neg |-> neg, op |-> op, on |-> on, rhs |-> rhs]
-Val(v) == [r |-> "val", v |-> v]
-Qr(q) == [r |-> "q", q |-> q, all |-> TRUE]
-Flt(cnf) == [p |-> "filter", c |-> cnf]
 
 FB(op, v) == Flt(<<<<Gac(<<K(kb)>>, TRUE, FALSE, op, FALSE, <<Val(v)>>)>>>>)
 FBExists == Flt(<<<<Gac(<<K(kb)>>, TRUE, FALSE, "exists", FALSE, <<>>)>>>>)
 FCx == Flt(<<<<Gac(<<K(kc)>>, TRUE, FALSE, "eq", FALSE, <<Val(S(sx))>>)>>>>)
 
-Queries ==
+E1Queries ==
   << <<K(ka)>>, <<K(ka), Idx>>, <<K(ka), All>>, <<K(ka), At(0)>>, <<K(ka), At(1)>>,
      <<K(ka), K(kb)>>, <<K(ka), Idx, K(kb)>>, <<K(ka), All, K(kb)>>, <<K(ka), K(kb), Idx>>,
      <<K(ka), FB("eq", I(1))>>, <<K(ka), FBExists, K(kc)>>,
@@ -74,7 +50,7 @@ UnaryOps == <<"exists", "empty", "is_string", "is_list", "is_struct", "is_bool",
               "is_float", "is_null">>
 BinaryOps == <<"eq", "in", "lt", "le", "gt", "ge">>
 
-Rhs == [i \in 1 .. Len(Leaves) |-> Val(Leaves[i])] \o
+E1Rhs == [i \in 1 .. Len(Leaves) |-> Val(Leaves[i])] \o
   <<Val(L(<<I(1), I(2)>>)), Val(L(<<I(1)>>)), Val(L(<<S(sx), S(sy)>>)), Val(L(<<>>)),
     Val(L(<<L(<<I(1)>>), L(<<I(2)>>)>>)), Val(M(<<kb>>, <<I(1)>>)),
     Val(RI(1, 2, 3)), Val(RI(1, 2, 0)), Val(RI(1, 2, 1)), Val(RI(1, 5, 2)),
@@ -84,57 +60,11 @@ Rhs == [i \in 1 .. Len(Leaves) |-> Val(Leaves[i])] \o
     Qr(<<K(ka)>>), Qr(<<K(ka), Idx>>), Qr(<<K(kb)>>), Qr(<<K(kz)>>)>>
 
 \* operator/right-hand-side combinations: unary ops have no rhs (index 0)
-OpRhs == [i \in 1 .. Len(UnaryOps) |-> <<UnaryOps[i], 0>>] \o
-         Concat([i \in 1 .. Len(BinaryOps) |-> [j \in 1 .. Len(Rhs) |-> <<BinaryOps[i], j>>]])
+E1OpRhs == [i \in 1 .. Len(UnaryOps) |-> <<UnaryOps[i], 0>>] \o
+         Concat([i \in 1 .. Len(BinaryOps) |-> [j \in 1 .. Len(E1Rhs) |-> <<BinaryOps[i], j>>]])
 
-HasOpNot(op) == op \in {"eq", "in"} \/ IsUnaryOp(op)
-
-\* ---- state space --------------------------------------------------------
-VARIABLES qi, di, al, oi, phase
-
-Slice == IF "SLICE" \in DOMAIN IOEnv THEN atoi(IOEnv.SLICE) ELSE 0      \* 0 = everything
-Slices == IF "SLICES" \in DOMAIN IOEnv THEN atoi(IOEnv.SLICES) ELSE 1
-
-Init ==
-  /\ qi \in 1 .. Len(Queries)
-  /\ di \in {d \in 1 .. Len(Docs) : Slice = 0 \/ (d % Slices) = (Slice % Slices)}
-  /\ al = TRUE /\ oi = 0 /\ phase = "seed"
-
-Next ==
-  /\ phase = "seed"
-  /\ phase' = "case"
-  /\ al' \in BOOLEAN
-  /\ oi' \in 1 .. Len(OpRhs)
-  /\ UNCHANGED <<qi, di>>
-
-vars == <<qi, di, al, oi, phase>>
-Spec == Init /\ [][Next]_vars
-
-Clause(neg, on) ==
-  LET op == OpRhs[oi][1]
-      ri == OpRhs[oi][2] IN
-  Gac(Queries[qi], al, neg, op, on, IF ri = 0 THEN <<>> ELSE <<Rhs[ri]>>)
-
-Prog(c) == [lets |-> <<>>, prules |-> <<>>,
-            rules |-> <<[n |-> "r", w |-> <<>>, lets |-> <<>>, b |-> <<<<c>>>>]>>]
-
-\* outcome of one polarity: [st |-> status | "ERR", m |-> marks of the value checks | error kind]
-RECURSIVE Marks(_, _)
-Marks(ch, i) == IF i > Len(ch) THEN "" ELSE
-                (IF ch[i].st = "PASS" THEN "P" ELSE "F") \o Marks(ch, i + 1)
-Outcome(neg, on) ==
-  LET d == Denote(Prog(Clause(neg, on)), Docs[di], {}) IN
-  IF d.kind = "err" THEN [st |-> "ERR", m |-> d.e]
-  ELSE [st |-> d.rules[1][2], m |-> Marks(d.tree.ch[1].ch[1].ch, 1)]
-
-Dual(op) == CASE op = "gt" -> "le" [] op = "le" -> "gt" [] op = "lt" -> "ge" [] op = "ge" -> "lt"
-
-\* the left- and right-hand results of the current clause, straight from the query engine
-Root == WithPaths(Docs[di], <<>>)
-RootEnv == <<[k |-> "root", root |-> Root, lets |-> <<>>]>>
-X0 == [F |-> Prog(Clause(FALSE, FALSE)), dev |-> {}]
-Lhs == Query(X0, Queries[qi], 1, Root, RootEnv)
-RhsRes == LET ri == OpRhs[oi][2] IN ResolveRhs(X0, Rhs[ri], RootEnv)
+E1Allowed(d, o) == TRUE
+E1Quantifiers == BOOLEAN
 
 \* C03: the clause's query selects a single value that is comparable with the right-hand side
 SingleComparable ==
@@ -145,8 +75,6 @@ SingleComparable ==
   /\ LET its == BinaryItems(op, FALSE, Lhs.r, RhsRes.r) IN
      Len(its) = 1 /\ its[1].k \in {"ok", "no"} /\ its[1].c \in {"value", "valuein"}
 
-FlipSt(s) == IF s = "PASS" THEN "FAIL" ELSE IF s = "FAIL" THEN "PASS" ELSE s
-
 CaseOK ==
   phase = "case" =>
   LET op == OpRhs[oi][1]
@@ -154,10 +82,8 @@ CaseOK ==
       oTF == Outcome(TRUE, FALSE)
       oFT == IF HasOpNot(op) THEN Outcome(FALSE, TRUE) ELSE oFF
       oTT == IF HasOpNot(op) THEN Outcome(TRUE, TRUE) ELSE oTF
-      line == [q |-> qi, d |-> di, all |-> al, o |-> oi,
-               r |-> IF HasOpNot(op) THEN <<oFF, oFT, oTF, oTT>> ELSE <<oFF, oTF>>]
   IN
-  /\ PrintT(<<"REPLAY", ToJson(line)>>)
+  /\ EmitReplay(IF HasOpNot(op) THEN <<oFF, oFT, oTF, oTT>> ELSE <<oFF, oTF>>)
   \* C03: prefix not == operator not; negating twice restores the original
   /\ HasOpNot(op) => (oTF = oFT /\ oTT = oFF)
   \* C03: SKIP stays SKIP, errors stay errors under negation
@@ -188,8 +114,4 @@ CaseOK ==
         /\ \E i \in 1 .. Len(Lhs.r) :
              ~IsUnres(Lhs.r[i]) /\ Lhs.r[i].v.t \notin {"str", "list", "map", "bool"})
 
-ASSUME PrintT(<<"TABLE", "queries", ToJson(Queries)>>)
-ASSUME PrintT(<<"TABLE", "docs", ToJson(Docs)>>)
-ASSUME PrintT(<<"TABLE", "rhs", ToJson(Rhs)>>)
-ASSUME PrintT(<<"TABLE", "oprhs", ToJson(OpRhs)>>)
 =============================================================================
